@@ -92,6 +92,8 @@ package parser
 //@   loop 4 invariant model.packetsNonNil(v.BinModel)
 
 //@ pred lengthOK(lf *model.Field) := lf != nil ==> (fieldOK(lf) && typeis(lf.Attr, *model.LengthFieldAttribute))
+//@ pred csText(f *model.Field) := typeis(f.Attr, *model.CheckSumFieldAttribute) ==> istokentext(unbox(f.Attr, *model.CheckSumFieldAttribute).CheckSumType)
+
 //@ pred newErrorsHaveLines(m *model.BinaryModel, n int) := len(m.SyntaxErrors) >= n && forall(i, n, len(m.SyntaxErrors), m.SyntaxErrors[i] != nil && m.SyntaxErrors[i].Line >= 1)
 
 //@ func (*PacketDslVisitorImpl).VisitPacketDefinition
@@ -107,18 +109,22 @@ package parser
 //@   loop 1 invariant newErrorsHaveLines(self.BinModel, old(len(self.BinModel.SyntaxErrors))) && forall(i, 0, old(len(self.BinModel.SyntaxErrors)), self.BinModel.SyntaxErrors[i] == old(self.BinModel.SyntaxErrors[i])) && forall(j, 0, len(fields), haskey(positions, fields[j]) && positions[fields[j]][0] >= 1)
 
 //@ func (*PacketDslVisitorImpl).VisitFieldDefinitionWithAttribute
+//@   ensures [C06:algorithm-is-token-text] typeis(result, *model.Field) && csText(unbox(result, *model.Field))
 //@   ensures isField(result)
 //@   ensures [C12:pad-line] newErrorsHaveLines(self.BinModel, old(len(self.BinModel.SyntaxErrors))) && forall(i, 0, old(len(self.BinModel.SyntaxErrors)), self.BinModel.SyntaxErrors[i] == old(self.BinModel.SyntaxErrors[i]))
 //@   loop 0 invariant fieldOK(f)
+//@   loop 0 invariant csText(f)
 //@   loop 0 invariant newErrorsHaveLines(self.BinModel, old(len(self.BinModel.SyntaxErrors))) && forall(i, 0, old(len(self.BinModel.SyntaxErrors)), self.BinModel.SyntaxErrors[i] == old(self.BinModel.SyntaxErrors[i]))
 
 //@ func (*PacketDslVisitorImpl).VisitFieldDefinition
+//@   ensures [C06:algorithm-is-token-text] typeis(result, *model.Field) && csText(unbox(result, *model.Field))
 //@   ensures [C12:new-errors-have-lines] newErrorsHaveLines(self.BinModel, old(len(self.BinModel.SyntaxErrors))) && forall(i, 0, old(len(self.BinModel.SyntaxErrors)), self.BinModel.SyntaxErrors[i] == old(self.BinModel.SyntaxErrors[i]))
 //@   requires isnode(ctx, fieldDefinition)
 //@   ensures isField(result)
 //@   decreases 2*depth(ctx) + 1
 
 //@ func (*PacketDslVisitorImpl).VisitInerObjectField
+//@   ensures [C06:algorithm-is-token-text] typeis(result, *model.Field) && csText(unbox(result, *model.Field))
 //@   ensures [C12:new-errors-have-lines] newErrorsHaveLines(self.BinModel, old(len(self.BinModel.SyntaxErrors))) && forall(i, 0, old(len(self.BinModel.SyntaxErrors)), self.BinModel.SyntaxErrors[i] == old(self.BinModel.SyntaxErrors[i]))
 //@   ensures isField(result)
 //@   loop 0 invariant forall(i, 0, len(subFields), fieldOK(subFields[i]))
@@ -128,16 +134,20 @@ package parser
 //@   decreases 2*depth(ctx)
 
 //@ func (*PacketDslVisitorImpl).VisitLengthFieldDeclaration
+//@   ensures [C06:algorithm-is-token-text] typeis(result, *model.Field) && csText(unbox(result, *model.Field))
 //@   ensures isField(result)
 
 //@ func (*PacketDslVisitorImpl).VisitCheckSumFieldDeclaration
+//@   ensures [C06:algorithm-is-token-text] typeis(result, *model.Field) && csText(unbox(result, *model.Field))
 //@   ensures isField(result)
 
 //@ func (*PacketDslVisitorImpl).metaDataDeclarationToField
+//@   ensures [C06:algorithm-is-token-text] typeis(result, *model.Field) && csText(unbox(result, *model.Field))
 //@   ensures [C12:new-errors-have-lines] newErrorsHaveLines(self.BinModel, old(len(self.BinModel.SyntaxErrors))) && forall(i, 0, old(len(self.BinModel.SyntaxErrors)), self.BinModel.SyntaxErrors[i] == old(self.BinModel.SyntaxErrors[i]))
 //@   ensures isField(result)
 
 //@ func (*PacketDslVisitorImpl).VisitMatchFieldDeclaration
+//@   ensures [C06:algorithm-is-token-text] typeis(result, *model.Field) && csText(unbox(result, *model.Field))
 //@   ensures [C12:new-errors-have-lines] newErrorsHaveLines(self.BinModel, old(len(self.BinModel.SyntaxErrors))) && forall(i, 0, old(len(self.BinModel.SyntaxErrors)), self.BinModel.SyntaxErrors[i] == old(self.BinModel.SyntaxErrors[i]))
 //@   ensures isField(result)
 //@   loop 0 invariant len(pairs) >= rangeindex + 1
@@ -148,6 +158,8 @@ package parser
 //@ func (*PacketDslVisitorImpl).VisitMatchPair
 //@   ensures typeis(result, []model.MatchPair) && len(unbox(result, []model.MatchPair)) >= 1
 //@   ensures [C12:pair-lines] forall(k, 0, len(unbox(result, []model.MatchPair)), unbox(result, []model.MatchPair)[k].Line >= 1)
+//@   ensures [C05:pair-is-token-text] forall(k, 0, len(unbox(result, []model.MatchPair)), istokentext(unbox(result, []model.MatchPair)[k].Key) && istokentext(unbox(result, []model.MatchPair)[k].Value))
+//@   loop 0 invariant forall(k, 0, len(pairs), istokentext(pairs[k].Key) && istokentext(pairs[k].Value))
 //@   loop 0 invariant rangeindex >= 1 ==> len(pairs) >= 1
 //@   loop 0 invariant forall(k, 0, len(pairs), pairs[k].Line >= 1)
 
